@@ -5,6 +5,7 @@ package main
 import (
 	"fmt"
 	"math/rand"
+	"os"
 
 	"github.com/evolbioinfo/goalign/align"
 )
@@ -32,6 +33,11 @@ func c13(args []string) error {
 		kind := r.Intn(3)
 		nseq := randLen(r, 6)
 		L := randLen(r, 12)
+		// one very wide alignment with a dominant column pattern: multiplicities beyond 16 bits
+		wide := i == g.n-1 && g.n >= 10 && g.only < 0 && os.Getenv("VERIF_NO_WIDE") == ""
+		if wide {
+			kind, nseq, L = 2, 1+r.Intn(2), 65536+r.Intn(70000)
+		}
 		names := distinctNames(r, nseq)
 		seqs := make([]string, nseq)
 		alphaLetters := "AC-NXnx"
@@ -71,7 +77,10 @@ func c13(args []string) error {
 			}
 			for j := 0; j < L; j++ {
 				p := pats[r.Intn(npat)]
-				if r.Intn(6) == 0 {
+				if wide {
+					p = pats[0]
+				}
+				if (!wide && r.Intn(6) == 0) || (wide && r.Intn(3000) == 0) {
 					p = []byte(randSeq(r, nseq, func(r *rand.Rand) byte { return "ACGT-"[r.Intn(5)] }))
 				}
 				for k := 0; k < nseq; k++ {
